@@ -442,8 +442,12 @@ Section Writer.
   Definition hdr_ignchar (hdr : list str) : N :=
     match hdr with (c :: _) :: _ => if is_alpha c then c_at else c | _ => c_at end.
   (* the written file read through a $INPUT record `opts` and the generated $DATA record *)
+  (* ... and a $DATA record with the IGNORE=c token `ignc`, the NULL option `nullc` and no filter lists *)
+  Definition cycle_input_full (opts : list (str * option str)) (ignc : option str) (nullc : option N)
+             (mdt : str) (hdr : list str) (rows : list (list cell)) : input :=
+    mkInput (csv_text mdt hdr rows) opts ignc nullc [] [] mdt.
   Definition cycle_input_opts (opts : list (str * option str)) (mdt : str) (hdr : list str) (rows : list (list cell)) : input :=
-    mkInput (csv_text mdt hdr rows) opts (Some [hdr_ignchar hdr]) None [] [] mdt.
+    cycle_input_full opts (Some [hdr_ignchar hdr]) None mdt hdr rows.
   Definition cycle_input (mdt : str) (hdr : list str) (rows : list (list cell)) : input :=
     cycle_input_opts (map (fun nm => (nm, None)) hdr) mdt hdr rows.
 
@@ -513,3 +517,54 @@ Definition g_no_same_dropped (old : list (str * option str)) (new : list str) : 
   forallb (fun on => negb (opt_drop (fst on) &&
                            match given_names [fst on] with [Some x] => str_eqb x (snd on) | _ => false end))
           (combine old new).
+
+(* =====================================================================================================
+   update_source / write_files: what the written model's $DATA record says.
+   RULE (what the cycle needs): filters of the written model o written data = identity on the in-memory
+   dataset — the in-memory dataset is already filtered, so a $DATA record that names a file written from it
+   must not carry an IGNORE/ACCEPT list any more (text filters would be re-applied to values that print
+   differently: 1 is written as 1.0), and a $DATA record that keeps its lists must keep naming the file they
+   were written for.
+   ===================================================================================================== *)
+Record data_opts := mkData {
+  d_ignchar : option str; d_null : option N; d_ignore : list filt; d_accept : list filt }.
+Definition data_of (i : input) : data_opts := mkData (i_ignchar i) (i_null i) (i_ignore i) (i_accept i).
+
+(* DataRecord.set_ignore_character(c): an existing token that already denotes c is kept *)
+Definition set_ignchar (c : N) (tok : option str) : option str :=
+  match tok with
+  | Some (x :: tl) => if N.eqb (ign_char tok) c then tok else Some [c]
+  | _ => Some [c]
+  end.
+
+(* update_source: when the dataset content, the datainfo or the path changed, the record gets the IGNORE
+   character of the new header and LOSES its IGNORE/ACCEPT lists; otherwise it is left alone *)
+Definition update_data (changed : bool) (hdr : list str) (d : data_opts) : data_opts :=
+  if changed then mkData (set_ignchar (hdr_ignchar hdr) (d_ignchar d)) (d_null d) [] [] else d.
+
+(* write_files: the file name of $DATA is set to datainfo.path only when the dataset content was replaced
+   (or had no path) or force=True; with force=False after write_csv the OLD file stays named (defect) *)
+Definition name_follows (updated force : bool) : bool := updated || force.
+(* [finding] a regenerated $DATA record must name the file written from the in-memory dataset *)
+Definition g_renamed (changed updated force : bool) : bool := negb changed || name_follows updated force.
+
+Definition written_input (pr : Q -> str) (changed renamed : bool) (old : input) (ci : colinfo)
+           (mdt : str) (hdr : list str) (rows : list (list cell)) : input :=
+  if changed then
+    let d := update_data true hdr (data_of old) in
+    mkInput (if renamed then csv_text pr mdt hdr rows else i_text old)
+            (update_input_model (i_options old) (ci_drop ci) (map (fun nm => (nm, false)) hdr))
+            (d_ignchar d) (d_null d) (d_ignore d) (d_accept d) mdt
+  else old.
+
+(* the rule, executable: the lists of an input remove none of its data rows *)
+Definition filters_identity (i : input) : bool :=
+  match column_info (i_options i), null_string (i_null i) with
+  | Ok ci, Ok ns =>
+      let fs := if is_nil (i_ignore i) then i_accept i else i_ignore i in
+      match filterM (spec_filters_row (ci_names ci) (ci_syn ci) ns (i_mdt i) (negb (is_nil (i_ignore i))) fs) (data_rows i) with
+      | Ok rows' => Nat.eqb (length rows') (length (data_rows i))
+      | Err _ => false
+      end
+  | _, _ => false
+  end.
